@@ -40,6 +40,14 @@ def configs(tier):
         for nm in ('int', 'float', 'mixed'):
             cfgs.append(dict(group='marginal', strat=strat, d=3, q=1, m=2, storage='batch', names=nm, _cost=64))
         cfgs.append(dict(group='marginal', strat=strat, d=2, q=2, m=2, storage='batch', labels=2, _cost=64))
+    # histories: the same imputer object used across storage updates (fill phase, at capacity, after eviction)
+    for strat in ('joint', 'product'):
+        for st in ('batch', 'interval', 'sequence', 'uniform', 'geometric'):
+            for m, cap in ((1, 1), (1, 2), (2, 2)) if st != 'sequence' else ((1, 1),):
+                if st == 'batch' and cap != m:
+                    continue
+                cfgs.append(dict(group='history', strat=strat, storage=st, m=m, cap=cap, d=2, q=1,
+                                 steps='iuiuui' if tier == 'quick' else 'iuiuuiui', _cost=3000))
     for d in range(1, dmax + 1):
         for q in range(1, qmax + 1):
             cfgs.append(dict(group='default', d=d, q=q))
@@ -154,3 +162,39 @@ def _default(env, cfg, ctx):
     env.claim('no_random_draws', len(ctx.py_random.calls) == 0)
     if S:
         env.canary('subset_not_left_untouched', all(same_term(model.calls[0][f], x[f]) for f in S))
+
+
+def _history(env, cfg, ctx):
+    """one imputer object, interleaved impute (i) / storage.update (u) steps; every impute is checked against the
+    storage content AT THAT MOMENT (so a cached or stale view of the storage is caught)"""
+    names = names_for('str', cfg['d'])
+    model = UFModel(env, names)
+    storage, rows, ys = build_storage(env, cfg['storage'], names, cfg['m'], store_targets=True, cap=cfg['cap'])
+    if cfg['storage'] == 'geometric':
+        storage.constant_probability = 1.0      # always insert: the interesting histories (eviction) on every path
+    imp = guarded(env, 'ctor', MarginalImputer, model, cfg['strat'], storage)
+    S = list(names)
+    t = 0
+    for step in cfg['steps']:
+        t += 1
+        if step == 'u':
+            guarded(env, 'storage.update', storage.update, sym_row(env, names, f"new{t}"), env.real(f"new{t}_y"))
+            continue
+        x = sym_row(env, names, f"x{t}")
+        now = list(storage.get_data()[0])
+        n_calls, n_draws = len(model.calls), len(ctx.py_random.calls)
+        preds = guarded(env, 'impute', imp.impute, S, x, cfg['q'])
+        env.claim('returns_n_samples_predictions', len(preds) == cfg['q'])
+        for z in model.calls[n_calls:]:
+            if cfg['strat'] == 'joint':
+                env.claim('joint_row_is_currently_stored', any(all(same_term(z[f], r[f]) for f in S) for r in now),
+                          detail=f"step {t} of {cfg['steps']}")
+            else:
+                env.claim('product_values_are_currently_stored', all(any(same_term(z[f], r[f]) for r in now) for f in S),
+                          detail=f"step {t} of {cfg['steps']}")
+        draws = ctx.py_random.calls[n_draws:]
+        env.claim('row_indices_requested_over_whole_current_storage',
+                  all((c[0] == 'randrange' and c[1] == (0, len(now))) or (c[0] == 'randint' and c[1] == (0, len(now) - 1))
+                      for c in draws if c[0] in ('randrange', 'randint')) and len(draws) >= 1,
+                  detail=f"step {t}: storage holds {len(now)} rows, draws {[(c[0], c[1]) for c in draws]}")
+        env.claim('storage_object_still_the_given_one', imp.storage_object is storage)
